@@ -43,7 +43,15 @@ Fixpoint glist {A} (n : nat) (g : Gen A) : Gen (list A) :=
   | S k => gdo x <- g; gdo xs <- glist k g; gret (x :: xs)
   end.
 
-Definition gbytes (n : nat) : Gen bytes := glist n (grand 256).
+(* n bytes: mostly arbitrary, one time in sixteen all zero, one time in sixteen all ones (addresses, MACs, record
+   bodies and payloads of degenerate content are values like any other) *)
+Definition gbytes (n : nat) : Gen bytes :=
+  gdo c <- grand 16;
+  match c with
+  | 0 => gret (repeat 0 n)
+  | 1 => gret (repeat 255 n)
+  | _ => glist n (grand 256)
+  end.
 
 Definition gpick {A} (d : A) (l : list A) : Gen A :=
   gdo i <- grand (N.of_nat (length l)); gret (nth (N.to_nat i) l d).
